@@ -24,12 +24,12 @@ import (
 // CrashItem: node 0 of scenario Base runs on Badger and crashes before its
 // P-th durable store write (P=0: clean shutdown after the seed).
 type CrashItem struct {
-	Base   string      `json:"base"`
-	From   int         `json:"from"`
-	To     int         `json:"to"`
-	Devs   []sched.Dev `json:"devs,omitempty"`
-	Kill   bool        `json:"kill,omitempty"`   // validate the crash model with real SIGKILLs in child processes
-	Clean  bool        `json:"clean,omitempty"`  // clean close + reopen after the seed
+	Base  string      `json:"base"`
+	From  int         `json:"from"`
+	To    int         `json:"to"`
+	Devs  []sched.Dev `json:"devs,omitempty"`
+	Kill  bool        `json:"kill,omitempty"`  // validate the crash model with real SIGKILLs in child processes
+	Clean bool        `json:"clean,omitempty"` // clean close + reopen after the seed
 }
 
 type CrashResult struct {
